@@ -38,6 +38,8 @@ ASSUMPTIONS = [
     "'hits a scheduled time' is judged with the manager's own rtol/atol",
 ]
 PROBES = [
+    "rollback_mode",
+    "rolled_back",
     "run_reached_final_time",
     "exact_landing_without_correction",
     "isclose_no_correction_branch",
@@ -140,10 +142,20 @@ def gen_params(ch):
                 recomp_factor=ch.choice([0.5, 0.1, 0.25, 0.9]),
                 recomp_max=ch.rng(1, 6),
             )
+        # the schedule may be handed over as a numpy array that the caller goes on using (rescaled, shifted for the next
+        # stage): the manager's schedule must be its own
+        as_array = ch.flag(1, 4)
+        kw_call = dict(kw)
+        if as_array:
+            buf = np.array(sched, dtype=float)
+            kw_call["schedule"] = buf
         try:
-            tm = pp.TimeManager(**kw)
+            tm = pp.TimeManager(**kw_call)
         except ValueError:
             continue
+        if as_array:
+            buf *= 3.0
+            buf += 1.0
         # keep the walk bounded: the property's own bound on accepted steps
         if not constant:
             dt_min = tm.dt_min_max[0]
@@ -292,6 +304,10 @@ def run_tm_walk(ch, tr: Trace) -> None:
         fault_horizon = ch.choice([MAX_ATTEMPTS, 5, 15, 40])  # no injected failures after this attempt
         aim = ch.flag()  # aim half of the failures at 'interesting' attempts
         k_mode = ch.draw(4)  # iteration-count family
+        # roll-back mode: the time information is exported after every accepted step (as the models do) and the same
+        # manager is now and then set back to an exported level (set_time_and_dt_from_exported_steps), followed by
+        # ordinary converged / failed steps
+        rollback = (not tm.is_constant) and ch.flag(1, 20)
     tr.emit("config", {k: (list(v) if isinstance(v, (tuple, list, np.ndarray)) else v) for k, v in kw.items()},
             "p_fail", p_fail_num, "horizon", fault_horizon)
     orc = ClockOracle(tm, tr)
@@ -300,6 +316,26 @@ def run_tm_walk(ch, tr: Trace) -> None:
     prev_failed = False
     first = True
     tr.state(abstract_state(tm))
+    import contextlib
+    from pathlib import Path
+
+    from simkit import envseam
+
+    stack = contextlib.ExitStack()
+    exports: list = []  # (time, dt, schedule cursor, about-to-hit flag, number of accepted times) per exported level
+    tfile = None
+    if rollback:
+        tfile = Path(stack.enter_context(envseam.scratch())) / "times.json"
+        tm.write_time_information(tfile)
+        exports.append((float(tm.time), float(tm.dt), tm._scheduled_idx, tm._is_about_to_hit_schedule, 1))
+        tr.probe("rollback_mode")
+    with stack:
+        _walk(ch, tr, tm, orc, p_fail_num, fault_horizon, aim, k_mode, rollback, exports, tfile)
+
+
+def _walk(ch, tr, tm, orc, p_fail_num, fault_horizon, aim, k_mode, rollback, exports, tfile):
+    prev_failed = False
+    first = True
     while not tm.final_time_reached():
         if orc.n_attempts >= MAX_ATTEMPTS:
             tr.probe("attempt_cap_reached")
@@ -382,6 +418,28 @@ def run_tm_walk(ch, tr: Trace) -> None:
             orc.accepted_step(t_att)
             tr.op("attempt", "landed" if landing else "conv", t_att, k)
             prev_failed = False
+            if rollback and not tm.final_time_reached():
+                tm.write_time_information(tfile)
+                exports.append((float(tm.time), float(tm.dt), tm._scheduled_idx, tm._is_about_to_hit_schedule, len(orc.accepted)))
+                # candidates: earlier levels exported under the same schedule cursor and flag (the roll-back restores
+                # time and dt only; crossing a cursor change is the restart defect noted in DESIGN section 7, outside C09)
+                cands = [j for j, e in enumerate(exports[:-1]) if e[2] == tm._scheduled_idx and e[3] == tm._is_about_to_hit_schedule]
+                ch.begin("rollback")
+                try:
+                    do = bool(cands) and ch.flag(1, 4)
+                    j = ch.choice(cands) if do else None
+                finally:
+                    ch.end()
+                if do:
+                    t_j, dt_j, _, _, n_acc = exports[j]
+                    tm.set_time_and_dt_from_exported_steps(j)
+                    tm.write_time_information(tfile)  # the restarted model exports the restored level again
+                    del exports[j + 1:]
+                    if float(tm.time) != t_j or float(tm.dt) != dt_j:
+                        raise Violation("failed_step_rewinds_clock", f"roll-back to exported level {j}: time/dt {tm.time!r}/{tm.dt!r}, exported {t_j!r}/{dt_j!r}", "rollback_restores_other_level")
+                    del orc.accepted[n_acc:]
+                    tr.probe("rolled_back")
+                    tr.op("rollback", "ok", j, t_j)
         first = False
         tr.state(abstract_state(tm))
     orc.end()
